@@ -88,7 +88,8 @@ func (pl *Playlist) M3u8(token string) ([]byte, error) {
 		}
 	}
 
-	return w.Bytes(), nil
+	// 返回副本：w 会回到池中被其他调用者复用
+	return append([]byte(nil), w.Bytes()...), nil
 }
 
 // Segment 获取 segment
